@@ -18,16 +18,17 @@ mod verif_harness {
     fn any_wf() -> Executor<NoE> {
         let n: usize = kani::any();
         kani::assume(n <= N);
-        let mut heap = Vec::new();
-        let mut refcounts = Vec::new();
-        let mut freed = Vec::new();
-        let mut free = Vec::new();
+        // capacities are fixed up front so that CBMC does not have to model reallocation
+        let mut heap = Vec::with_capacity(N + 2);
+        let mut refcounts = Vec::with_capacity(N + 2);
+        let mut freed = Vec::with_capacity(N + 2);
+        let mut free = Vec::with_capacity(N + 2);
         let mut i = 0;
         while i < n {
             let f: bool = kani::any();
             let c: u32 = kani::any();
             kani::assume(c <= 2 && (!f || c == 0));
-            heap.push(BinaryData::new(vec![0x10 + i as u8]));
+            heap.push(BinaryData::Zeroed(1)); // a one-byte binary without an allocation of its own
             refcounts.push(c);
             freed.push(f);
             if f {
@@ -35,7 +36,7 @@ mod verif_harness {
             }
             i += 1;
         }
-        let mut pending_free = Vec::new();
+        let mut pending_free = Vec::with_capacity(4);
         let q: usize = kani::any();
         kani::assume(q <= 3);
         let mut k = 0;
@@ -63,13 +64,13 @@ mod verif_harness {
         let mut ex = any_wf();
         let n0 = ex.heap.len();
         let was_free: Vec<bool> = ex.freed.clone();
-        let a = slot(ex.allocate_binary_data(BinaryData::new(vec![0xA1])).unwrap());
+        let a = slot(ex.allocate_binary_data(BinaryData::Zeroed(2)).unwrap());
         assert!(a == n0 || (a < n0 && was_free[a]));
-        let b = slot(ex.allocate_binary_data(BinaryData::new(vec![0xB2, 0xB3])).unwrap());
+        let b = slot(ex.allocate_binary_data(BinaryData::Zeroed(3)).unwrap());
         assert!(b != a);
         assert!(b == n0 || b == n0 + 1 || (b < n0 && was_free[b]));
         assert!(!ex.freed[a] && !ex.freed[b]);
-        assert!(ex.heap[a].len() == 1 && ex.heap[b].len() == 2);
+        assert!(ex.heap[a].len() == 2 && ex.heap[b].len() == 3);
     }
 
     // Reclamation never frees a counted slot, never touches a slot that was not queued, and leaves the
